@@ -83,8 +83,10 @@ pub fn j_try_trunc(v: i128, out: &mut Local) {
     let bound = if v < 0 { i64::MIN } else { i64::MAX };
     match got {
         Ok(x) if x as i128 == v => out.ok(1, nt, 5 | ((v < 0) as u64) << 2),
-        Ok(x) if !must && x == bound => out.ok(1, nt, 6 | ((v < 0) as u64) << 2 | (fits as u64) << 3),
-        Ok(x) => out.viol("c02.trunc", format!("wrong,diff={},a:{}", diffclass(x as i128, v), cclass(v)), args, if must { format!("{v}") } else { format!("{v} or {bound}") }, format!("{x}")),
+        // the bound only "when the count does not fit in an i64"; for a count that fits, the bound is "a different number"
+        Ok(x) if !fits && x == bound => out.ok(1, nt, 6 | ((v < 0) as u64) << 2),
+        Ok(x) if fits && !must && x == bound => out.viol("c02.trunc", format!("bound-returned-for-a-count-that-fits-in-i64,a:{}", cclass(v)), args, format!("{v}"), format!("{x}")),
+        Ok(x) => out.viol("c02.trunc", format!("wrong,diff={},a:{}", diffclass(x as i128, v), cclass(v)), args, if fits { format!("{v}") } else { format!("{bound}") }, format!("{x}")),
         Err(p) => out.viol("c02.trunc", format!("panic:{}", p.class()), args, "no panic".into(), format!("panic {} {}", p.loc, p.msg)),
     }
 }
